@@ -160,6 +160,10 @@ def run(ctx):
             core_digits = "".join(rng.choice("123456789") for _ in range(len(p4) - z))
             p4 = "0" * z + core_digits
             q4 = rng.choice([core_digits + "0" * z, p4[1:], core_digits])
+            if rng.random() < 0.5:
+                p4, q4 = q4, p4            # both directions: enciphered under the short form, deciphered under the zero-padded one
+        elif rng.random() < 0.3 and len(p4) <= 17 and not p4.startswith("0"):
+            q4 = "0" * rng.randrange(1, 20 - len(p4)) + p4      # the same number left-padded with zeros (another PAN: its length differs)
         if o.pan_field4_nibbles(p4) != o.pan_field4_nibbles(q4):
             r = call(pinblock.decipher_pinblock_iso_4, key, pinblock.encipher_pinblock_iso_4(key, pin, p4), q4)
             evals += 1
@@ -173,6 +177,12 @@ def run(ctx):
             diffs.append({"request": line, "standard_verdict": list(exp), "model": list(m)})
         elif len(samples) < 6:
             samples.append({"request": line, "standard_verdict": list(exp), "model": list(m)})
+    from harness.props.pinblock_common import threaded_fixed_pairs
+    dist["format_0_3_calls_in_tight_threaded_loops"] = threaded_fixed_pairs(ctx.rng, viol, iters=ctx.n(12000, 50000))
+    evals += dist["format_0_3_calls_in_tight_threaded_loops"]
+    from harness.props.pinblock_common import threaded_encoders
+    dist["decoder_calls_under_threads"] = threaded_encoders(ctx.rng, viol)
+    evals += dist["decoder_calls_under_threads"]
     from harness.props.pinblock_common import after_rejected_calls
     dist["calls_after_rejected_calls"] = after_rejected_calls(ctx.rng, viol)
     evals += dist["calls_after_rejected_calls"]
